@@ -159,6 +159,28 @@ func c14RunShared(payload string) string {
 
 var c14Rec func(n int) string
 
+// c14Lex runs the REAL lexer on the source of a literal: token kinds and, for string tokens, the value and
+// the raw / interpolating flag — what the interpolation stage receives ("escape sequences are interpreted,
+// a raw string is returned untouched").
+func c14Lex(src string) string {
+	var out []string
+	for _, t := range parser.LexToList("t", src) {
+		switch {
+		case t.ID == parser.TokenSTRING:
+			f := "R"
+			if t.AllowEscapes {
+				f = "E"
+			}
+			out = append(out, "S"+f+hx(t.Val))
+		case t.ID == parser.TokenError:
+			out = append(out, "X")
+		default:
+			out = append(out, fmt.Sprintf("T%d", int(t.ID)))
+		}
+	}
+	return strings.Join(out, ",")
+}
+
 func init() {
 	atoms := []string{"{{", "}}", "{", "}", `\"`, "'", `\n`, "a", "b", "c", "d", "e", "f", "1", "+", " ",
 		"x.cnt(1)", "x.cnt(2)", `\\`, `{`, `}`, "é"}
@@ -195,6 +217,41 @@ func init() {
 				}
 				g.Count("corpus")
 				g.Emit(p)
+			}
+			// the lexer stage: literal sources (also ones that do not form one string token) through the real
+			// lexer and the lexer model — values of quoted strings after escape processing, raw strings untouched
+			lexAtoms := []string{`\\`, `\"`, `\'`, `"`, `'`, `\n`, `\t`, `\u007b`, `\x41`, `\101`, `\`, "{{", "}}", "a", " ", "é", "\n", "r", "\xff"}
+			lexForms := [][2]string{{`"`, `"`}, {`'`, `'`}, {`r"`, `"`}, {`r'`, `'`}}
+			nLex := 3000
+			if g.Thorough() {
+				nLex = 60000
+			}
+			var lexRec func(prefix string, n int)
+			lexRec = func(prefix string, n int) {
+				for _, f := range lexForms {
+					g.Count("kind LEX")
+					g.Emit("LEX " + hx(f[0]+prefix+f[1]))
+				}
+				if n == 2 {
+					return
+				}
+				for _, a := range lexAtoms {
+					lexRec(prefix+a, n+1)
+				}
+			}
+			lexRec("", 0)
+			for i := 0; i < nLex; i++ {
+				var sb strings.Builder
+				for k, n := 0, 1+g.R.Intn(6); k < n; k++ {
+					sb.WriteString(lexAtoms[g.R.Intn(len(lexAtoms))])
+				}
+				f := lexForms[g.R.Intn(len(lexForms))]
+				tail := ""
+				if g.R.Intn(4) == 0 {
+					tail = " + " + f[0] + "x" + f[1]
+				}
+				g.Count("kind LEX")
+				g.Emit("LEX " + hx(f[0]+sb.String()+f[1]+tail))
 			}
 			// re-entrant and concurrent evaluation of ONE literal node (kinds REC and PAR)
 			nRP := 150
@@ -287,6 +344,9 @@ func init() {
 			}
 		},
 		Run: func(payload string) string {
+			if strings.HasPrefix(payload, "LEX ") {
+				return c14Lex(unhx(strings.TrimPrefix(payload, "LEX ")))
+			}
 			if strings.HasPrefix(payload, "REC ") || strings.HasPrefix(payload, "PAR ") {
 				return c14RunShared(payload)
 			}
